@@ -1,5 +1,72 @@
 import Ptn.C20.Model
-/-! Line-protocol handler for the C20 model (core Lean only). -/
+/-! Line-protocol handler for the C20 model (core Lean only).
+
+  route <MODE> <fwd 0|1> <n> <shape>   MODE = enum *value* (fastest, expm, …, RK45, …);
+                                       shape = `2x3x1` or `scalar` for the 0-dimensional shape
+      → `solve_ivp method=RK45 coeff=0,-1 time=span y0=complex shape=2x3`
+      → `fast_exp_action arg=eigsh routine=eigsh:6 coeff=0,1 time=factor y0=asis shape=8`
+      → `mismatch` when prod(shape) ≠ n (the matrix-vector product raises)
+  fea <mode-string> <n>                → routine name for a raw `fast_exp_action` mode string
+  scipy <MODE>                         → `1`/`0` (`is_scipy`)
+  ravel <shape> <idx>                  → flat position (C order) or `invalid`
+  unravel <shape> <k>                  → multi-index `i,j,…` (or `scalar`) or `invalid`
+-/
 namespace Ptn.C20
-def handle (args : List String) : String := "bad-op"
+
+def parseNats (sep : String) (s : String) : Option (List Nat) :=
+  if s = "scalar" then some [] else
+  (s.splitOn sep).mapM (fun t => t.toNat?)
+
+def showNats (sep : String) (l : List Nat) : String :=
+  if l.isEmpty then "scalar" else sep.intercalate (l.map toString)
+
+def Routine.show : Routine → String
+  | .solveIvp m => s!"solve_ivp:{m}"
+  | .expmDense => "expm"
+  | .eigshTrunc k => s!"eigsh:{k}"
+  | .expmMultiply => "expm_multiply"
+  | .expmSparse => "expm_sparse"
+  | .noAction => "none"
+  | .notImplemented => "NotImplementedError"
+
+def Route.show (r : Route) : String :=
+  let head := match r.routine, r.feaArg with
+    | .solveIvp m, _ => s!"solve_ivp method={m}"
+    | rt, some a => s!"fast_exp_action arg={a} routine={rt.show}"
+    | rt, none => s!"? routine={rt.show}"
+  let tu := match r.timeUse with | .factor => "factor" | .span => "span"
+  let y0 := if r.castComplex then "complex" else "asis"
+  s!"{head} coeff={r.coeff.re},{r.coeff.im} time={tu} y0={y0} shape={showNats "x" r.outShape}"
+
+def decideValid : (shape idx : List Nat) → Bool
+  | [], [] => true
+  | d :: ds, i :: is => i < d && decideValid ds is
+  | _, _ => false
+
+def handle (args : List String) : String :=
+  match args with
+  | ["route", m, f, n, sh] =>
+    match Mode.ofValue? m, (if f = "1" then some true else if f = "0" then some false else none),
+          n.toNat?, parseNats "x" sh with
+    | some mode, some fwd, some n, some shape =>
+      if size shape ≠ n then "mismatch" else (timeEvolve mode fwd n shape).show
+    | _, _, _, _ => "bad-op"
+  | ["fea", m, n] =>
+    match n.toNat? with
+    | some n => (fastExpAction m n).show
+    | none => "bad-op"
+  | ["scipy", m] =>
+    match Mode.ofValue? m with
+    | some mode => if mode.isScipy then "1" else "0"
+    | none => "bad-op"
+  | ["ravel", sh, ix] =>
+    match parseNats "x" sh, parseNats "," ix with
+    | some shape, some idx => if decideValid shape idx then toString (ravel shape idx) else "invalid"
+    | _, _ => "bad-op"
+  | ["unravel", sh, k] =>
+    match parseNats "x" sh, k.toNat? with
+    | some shape, some k => if k < size shape then showNats "," (unravel shape k) else "invalid"
+    | _, _ => "bad-op"
+  | _ => "bad-op"
+
 end Ptn.C20
